@@ -75,7 +75,7 @@ def _kw(ch: core.Chooser) -> dict:
 
 OPS = ["add", "sub", "mul", "pow", "derivative", "gradient", "hessian", "call_full", "call_partial", "call_poly", "getitem", "align", "clean", "pickle",
        "lt", "eq_cmp", "lead_exponent", "lead_coefficient", "argmax", "maximum", "str", "repr", "neg", "sum", "reshape", "concat", "where", "polynomial",
-       "isfinite", "dict_ctor", "noname_ctor", "const_tonumpy", "pow_by_poly", "call_cancelled", "symbols_one"]
+       "isfinite", "dict_ctor", "noname_ctor", "const_tonumpy", "pow_by_poly", "call_cancelled", "symbols_one", "item_overwritten"]
 
 
 def _gen_op(ch: core.Chooser, nslots: int, names: List[str]) -> dict:
@@ -366,6 +366,18 @@ class Exec:
             return n.hessian(a)
         if fn == "symbols_one":
             return n.symbols(node["spec"])
+        if fn == "item_overwritten":
+            # an item is taken out (basic indexing: an element, a row, a slice), the caller overwrites the item's
+            # coefficients in place, and the array it came from is looked at again
+            if not a.shape:
+                raise core.Undecided("0-d operand has no items")
+            item = a[node["ins"][1] % a.shape[0]] if node["out"] % 2 else a[: max(1, a.shape[0] - 1)]
+            if isinstance(item, n.ndpoly):
+                raw = item.values
+                if raw.flags.writeable:
+                    for key in raw.dtype.names or ():
+                        raw[key][...] = 7
+            return a * 1
         if fn == "call_cancelled":
             # a polynomial that became constant because its other terms cancelled, evaluated with a number or an array
             const = (a - a) + 3
